@@ -62,7 +62,7 @@ var documented = map[string][]string{
 type c14Cell struct {
 	Method string // Publish PublishRetained Subscribe SubscribeLimitAtMostOnce SubscribeLimitAtLeastOnce Unsubscribe Ping Disconnect PublishAtLeastOnce … PublishExactlyOnceRetained
 	State  string // pending-ok pending-fail down online closed
-	Place  string // none write-fail-0 write-fail-mid write-fail-last write-expire-0 response-lost response-malformed response-failed close-during-write close-awaiting
+	Place  string // none write-fail-0 write-fail-mid write-fail-last write-expire-0 response-lost response-malformed response-illegal-code response-failed close-during-write close-awaiting
 	Quit   string // nil closed-before during-write awaiting-response
 	Arg    string // valid invalid
 	Store  bool   // Save fails (persisted)
@@ -117,7 +117,7 @@ func genCell(r *rand.Rand) c14Cell {
 			places = append(places, "response-lost", "close-awaiting")
 		}
 		if kind == "Subscribe" {
-			places = append(places, "response-malformed", "response-failed")
+			places = append(places, "response-malformed", "response-illegal-code", "response-failed")
 		}
 		c.Place = places[r.Intn(len(places))]
 	}
@@ -226,6 +226,11 @@ func runCell(c *run.Ctx, cell c14Cell) {
 		switch cell.Place {
 		case "response-malformed":
 			return append(append([]byte{}, p.QoSs...), 0)
+		case "response-illegal-code":
+			// the right number of return codes, one of them none of 0, 1, 2, 0x80
+			codes := append([]byte{}, p.QoSs...)
+			codes[len(codes)-1] = []byte{3, 0x7f, 0x81, 0xff}[w.Rng.Intn(4)]
+			return codes
 		case "response-failed":
 			codes := append([]byte{}, p.QoSs...)
 			codes[0] = 0x80
@@ -540,7 +545,7 @@ func runCell(c *run.Ctx, cell c14Cell) {
 			c.Count("write_fault_not_injected", 1)
 		case cell.Quit == "nil" && cell.State == "online" && strings.HasPrefix(cell.Place, "write-"):
 			want = "ErrSubmit"
-		case cell.Quit == "nil" && cell.State == "online" && (cell.Place == "response-lost" || cell.Place == "response-malformed"):
+		case cell.Quit == "nil" && cell.State == "online" && (cell.Place == "response-lost" || cell.Place == "response-malformed" || cell.Place == "response-illegal-code"):
 			want = "ErrBreak"
 		case cell.Quit == "nil" && cell.State == "online" && cell.Place == "response-failed":
 			want = "SubscribeError"
